@@ -434,7 +434,7 @@ func (c *Client) store(rid string, r *CRes, f *Frame) {
 		c.closeInterval(old, "resent")
 	}
 	if c.DeletedSeen[rid] {
-		if _, v := c.s.W.lookup(c.expandCID(rid)); v != nil && !v.Deleted && c.s.deletedByRefetch[v] {
+		if _, v := c.s.W.lookup(c.expandCID(rid)); v != nil && !v.Deleted && c.s.deletedByRefetch[v] && c.s.loadedAnew(v) {
 			// the delete event came from a failed reset re-fetch, the resource is
 			// still there: loaded anew, it lives again
 			delete(c.DeletedSeen, rid)
